@@ -22,7 +22,10 @@ import (
 //	D id bad      register a Defer        G id neg      [!] exec helper sleep &
 //	O probe   F failing line   K skip   T stop   Z panic in a custom command
 //	N kill (every background command)   Y kill, then wait   U wait (no signal)
-//	G with an id >= 100: the command exits at once by itself with status 1 (exec helper exit 1 &)
+//	G with an id >= 100: the command exits at once by itself with status 1 (exec helper exit 1 &);
+//	  with an id in 50..99: it traps the interrupt, creates $WORK/late/f and exits 1 (not under retention)
+//	J id          exec helper sleep &b<id>& once more: the name is taken, the line fails, nothing is started
+//	H neg key     [!] exec key exit 0: a foreground command found (or not) on the script's own PATH
 //	I neg key sub [exec:key] sub  /  [!exec:key] sub
 type Action struct {
 	Op   string  `json:"op"`
@@ -215,6 +218,10 @@ func (a *Action) modelTokens(out *[]string) {
 		*out = append(*out, a.Op, fmt.Sprint(a.ID), b01(a.Flag))
 	case "O", "F", "K", "T", "Z", "N", "Y", "U":
 		*out = append(*out, a.Op)
+	case "J":
+		*out = append(*out, "F") // for the model: a line that fails and has no other effect
+	case "H":
+		*out = append(*out, "H", b01(a.Flag), hx(a.Key))
 	case "I":
 		*out = append(*out, "I", b01(a.Flag), hx(a.Key))
 		a.Sub.modelTokens(out)
@@ -350,10 +357,22 @@ func (a *Action) lines() []string {
 		if a.Flag {
 			neg = "! "
 		}
-		if a.ID >= 100 {
-			return []string{neg + "exec helper exit 1 &", fmt.Sprintf("bgrecord %d", a.ID)}
+		name := fmt.Sprintf("&b%d&", a.ID)
+		switch {
+		case a.ID >= 100:
+			return []string{neg + "exec helper exit 1 " + name, fmt.Sprintf("bgrecord %d", a.ID)}
+		case a.ID >= 50:
+			return []string{neg + "exec helper sleepmk $WORK @OBS@ " + name, fmt.Sprintf("bgrecord %d", a.ID)}
 		}
-		return []string{neg + "exec helper sleep &", fmt.Sprintf("bgrecord %d", a.ID)}
+		return []string{neg + "exec helper sleep " + name, fmt.Sprintf("bgrecord %d", a.ID)}
+	case "J":
+		return []string{fmt.Sprintf("exec helper sleep &b%d&", a.ID)}
+	case "H":
+		neg := ""
+		if a.Flag {
+			neg = "! "
+		}
+		return []string{neg + "exec " + a.Key + " exit 0"}
 	case "O":
 		return []string{"probe"}
 	case "F":
@@ -402,7 +421,7 @@ func (s *Script) archiveIn(rundir string, gated bool) []byte {
 			b.WriteString("gate\n")
 		}
 		for _, l := range s.Body[i].lines() {
-			b.WriteString(l + "\n")
+			b.WriteString(strings.ReplaceAll(l, "@OBS@", rundir+"/obs") + "\n")
 		}
 	}
 	for _, f := range s.Files {
@@ -427,11 +446,17 @@ func fileData(d string) string {
 
 var filePool = []string{"a.txt", "d/b.txt", "d/e/c.txt", "bin/mytool", "x", "a.txt", ".tmp/t", "d/b.txt", "z/y/w.txt", "bin/mytool", "q/r.txt", "d", "d/e"}
 var dirPool = []string{"d", "d/e", "n", "n/m", "bin", "z", ""}
-var progPool = []string{"sh", "nosuchprog-zz", "mytool", "helper", "b.txt"}
+var progPool = []string{"sh", "nosuchprog-zz", "mytool", "helper", "b.txt", "hostcanary"}
 
 func genAction(r *common.RNG, st *genState, allowEnd bool, depth int) Action {
 	for {
 		switch k := r.Intn(23); {
+		case k < 1:
+			// a foreground command by bare name: found on the script's PATH or not at all
+			return Action{Op: "H", Flag: r.Chance(1, 2), Key: common.Pick(r, []string{"hostcanary", "hostcanary", "nosuchprog-zz"})}
+		case k < 2 && len(st.bgs) > 0 && depth == 0:
+			// the name of a background command that is still registered, once more
+			return Action{Op: "J", ID: st.bgs[r.Intn(len(st.bgs))].id}
 		case k < 3:
 			return Action{Op: "O"}
 		case k < 5:
@@ -462,11 +487,11 @@ func genAction(r *common.RNG, st *genState, allowEnd bool, depth int) Action {
 			if r.Chance(1, 3) {
 				// a command that exits at once with status 1
 				st.nQuick++
-				st.bgs = append(st.bgs, genBg{neg: neg, quick: true})
+				st.bgs = append(st.bgs, genBg{id: 99 + st.nQuick, neg: neg, quick: true})
 				return Action{Op: "G", ID: 99 + st.nQuick, Flag: neg}
 			}
 			st.nBg++
-			st.bgs = append(st.bgs, genBg{neg: neg})
+			st.bgs = append(st.bgs, genBg{id: st.nBg, neg: neg})
 			return Action{Op: "G", ID: st.nBg, Flag: neg}
 		case k < 18:
 			// at most one kill per script: signalling a process that has been reaped is an error
@@ -510,6 +535,7 @@ func genAction(r *common.RNG, st *genState, allowEnd bool, depth int) Action {
 }
 
 type genBg struct {
+	id                    int
 	neg, quick, signalled bool
 }
 
